@@ -196,6 +196,13 @@ var c01Templates = []diffTmpl{
 	{"local ok, a, b = pcall(function() return x, y end); emit(ok, a, b)", "num"},
 	{"emit(1); error(x)", "num"},
 	{"local a = x; pcall(function() a = y; error('e') end); emit(a)", "num"},
+	// evaluation order of operands with effects
+	{"local function t(v) emit(v); return v end; emit(t(x) > t(y), t(x) >= t(y), t(x) < t(y), t(x) <= t(y), t(x) == t(y), t(x) ~= t(y)); emit(t(1) + t(2) * t(3), t(4) .. t(5) .. t(6), -t(7) ^ t(8))", "int"},
+	{"local n = 0; local function inc() n = n + 1; return n end; emit(inc() > inc(), inc() >= inc(), inc() < inc(), inc() - inc(), inc() / inc()); local t = {inc(), inc(), k = inc()}; emit(t[1], t[2], t.k); if inc() > inc() then emit('gt') else emit('le') end; while inc() > inc() do emit('never') end", "int"},
+	{"local function t(v) emit(v); return v end; local o = {}; o[t(1)] = t(2); t(o)[t(3)] = t(4); emit(t(5) and t(6) or t(7), t(nil) and t(8), t(false) or t(9))", "int"},
+	// generic for: only nil ends the loop
+	{"local c = 0; local function it() c = c + 1; if c == 1 then return false, x elseif c == 2 then return 0, y elseif c == 3 then return '', z end end; for a, b in it do emit(a, b) end; emit(c)", "num"},
+	{"local t = {[false] = x, [true] = y}; local n = 0; for k, v in pairs(t) do n = n + 1 end; for k, v in next, t do n = n + 10 end; emit(n, t[false], t[true])", "num"},
 	// constant conditions and jump threading
 	{"local n = 0; while true do if false then n = 100; n = 200 end; n = n + 1; if n > 3 then break end end; emit(n + x)", "int"},
 	{"local n = 0; repeat if nil then n = 50 end; n = n + 1 until n >= 3; emit(n + x)", "int"},
@@ -265,7 +272,7 @@ func c01Inputs(kind string) []diffInput {
 
 // C01.tmpl — whole-pipeline differential against R-lua.
 //
-//verif:harness prop=C01 tier=quick bounds="79 program templates organised by compiler special case (multiple assignment shapes, destination kinds, relational/logical contexts, loops, goto, tables, closures, varargs, errors, coercions); inputs: 3 symbolic float64 / 3 symbolic 32-bit integers / 2 values of any scalar type"
+//verif:harness prop=C01 tier=quick bounds="84 program templates organised by compiler special case (multiple assignment shapes, destination kinds, relational/logical contexts, loops, goto, tables, closures, varargs, errors, coercions); inputs: 3 symbolic float64 / 3 symbolic 32-bit integers / 2 values of any scalar type"
 func H_C01_tmpl() {
 	t := c01Templates[VChoice(len(c01Templates))]
 	diffRun(t.src, t.src, c01Inputs(t.kind), Options{})
@@ -357,12 +364,13 @@ var c03Templates = []diffTmpl{
 	{"fs = {}; i = 0; while i < 2 do i = i + 1; local v = i * x; fs[i] = function() return v end end; emit(fs[1](), fs[2]())", "int"},
 	{"fs = {}; for i = 1, 2 do local v = i + x; fs[i] = function() v = v + 1; return v end end; emit(fs[1](), fs[1](), fs[2]())", "int"},
 	{"local f; local ok = xpcall(function() local ok2 = pcall(function() local v = x; f = function() return v end; error('e') end); error('o') end, function(m) return m end); local function junk(a, b, c, d) return d end; junk(1, 2, 3, 4); emit(f())", "num"},
+	{"local x0 = x; local g = function() return x0 end; local x0 = y; emit(g(), x0); do local x0 = z; emit(g(), x0) end; emit(x0)", "num"},
 	{"local function tail(v) local function get() return v end; return (function(...) return ... end)(get) end; local g = tail(x); local function junk(a, b, c) return c end; junk(1, 2, 3); emit(g())", "num"},
 }
 
 // C03.tmpl — closures and captured variables on every exit path, whole pipeline against R-lua.
 //
-//verif:harness prop=C03 tier=quick bounds="24 closure templates: creation in numeric/generic for, while, repeat, do-blocks and calls; scope left by fall-through, break, goto, return, tail call, caught errors; register-reusing calls before use; inputs symbolic"
+//verif:harness prop=C03 tier=quick bounds="25 closure templates: creation in numeric/generic for, while, repeat, do-blocks and calls; scope left by fall-through, break, goto, return, tail call, caught errors; register-reusing calls before use; inputs symbolic"
 func H_C03_tmpl() {
 	t := c03Templates[VChoice(len(c03Templates))]
 	diffRun(t.src, t.src, c01Inputs(t.kind), Options{})
